@@ -116,6 +116,8 @@ def run(ck):
             if i % 5 == 0:
                 exact_pair(ck, c1, lst[(i + 1) % m], scale=1e-3, off=complex(2.5, -1e3))
                 exact_pair(ck, c1, lst[(i + 2) % m], scale=2.0 ** 20)
+                exact_pair(ck, c1, lst[(i + 3) % m], scale=2.0 ** -24)       # curves drawn at a tiny scale (extent ~ 1e-7)
+                exact_pair(ck, c1, lst[(i + 4) % m], scale=1e-7, off=complex(1e-7, 0))
         ck.sample('exact/%d' % n, {'P': lst[0]['P'], 'min': lst[0]['min'], 'max': lst[0]['max']})
     # generic lattice curves (witnesses)
     vals = [-3, 0, 1, 4]
@@ -150,6 +152,18 @@ def run(ck):
         bbs = [s.bbox() for s in segs]
         exp = (min(b[0] for b in bbs), max(b[1] for b in bbs), min(b[2] for b in bbs), max(b[3] for b in bbs))
         got = p.bbox()
+        if tuple(got) == exp and len(segs) >= 1 and not isinstance(segs[-1], sp.Arc):
+            # history: query, move an end point through the Path interface, query again (a fresh copy of the segments is used)
+            import copy
+            q = sp.Path(*[copy.deepcopy(s_) for s_ in segs])
+            q.bbox()
+            q.end = q.end + (40 + 50j)
+            q.start = q.start - (60 + 0j) if not isinstance(q[0], sp.Arc) else q.start
+            b2 = [s_.bbox() for s_ in q]
+            exp2 = (min(b[0] for b in b2), max(b[1] for b in b2), min(b[2] for b in b2), max(b[3] for b in b2))
+            if tuple(q.bbox()) != exp2:
+                ck.disagree(key='Path.bbox/stale-after-moving-an-end-point', site='svgpathtools/path.py:Path.bbox', what='bbox(); path.end = z; bbox() = %r, union %r' % (q.bbox(), exp2),
+                            case={'segs': [repr(s_) for s_ in segs]}, expected=list(exp2), observed=list(q.bbox()), driver='path')
         if tuple(got) != exp:
             ck.disagree(key='Path.bbox/not-the-union', site='svgpathtools/path.py:Path.bbox', what='Path.bbox() = %r, union of segment boxes = %r' % (got, exp),
                         case={'segs': [repr(s) for s in segs]}, expected=list(exp), observed=list(got), driver='path')
